@@ -648,6 +648,77 @@ theorem cells_real_loop {σ ρ : Type} (H : σ → Heap α Unit) (D : σ → Lis
         simpa using g1
 
 
+/-- the state before `_cull` in `pop()` of the last slot keeps the invariant (the argument of `popLast_spec`) -/
+theorem invC_dropLast (s : ISet α) (h : InvC s) (x : α) (hl : s.items.getLast? = some (some x)) :
+    InvC (⟨s.items.dropLast, IMap.erase s.idx x, s.dead⟩ : ISet α) := by
+  have hlive := live_dropLast_some s.items x hl
+  have hxnot : x ∉ live s.items.dropLast := by
+    intro hm
+    have := h.nodup
+    rw [hlive, List.nodup_append] at this
+    exact this.2.2 x hm x (by simp) rfl
+  have hne' : s.items ≠ [] := by intro e; rw [e] at hl; simp at hl
+  have hlen : 0 < s.items.length := by cases hi : s.items with | nil => exact absurd hi hne' | cons a b => simp
+  have hslot : s.items[s.items.length - 1]? = some (some x) := by
+    rw [← List.getLast?_eq_getElem?]; exact hl
+  have hget : ∀ j, j < s.items.length - 1 → s.items.dropLast[j]? = s.items[j]? := by
+    intro j hj
+    rw [List.dropLast_eq_take, List.getElem?_take]; simp [hj]
+  refine { nodup := ?_, perm := ?_, look := ?_, chain := ?_, tombs := ?_ }
+  · show (live s.items.dropLast).Nodup
+    have := h.nodup
+    rw [hlive, List.nodup_append] at this
+    exact this.1
+  · show (IMap.keys (IMap.erase s.idx x)).Perm (live s.items.dropLast)
+    rw [IMap.keys_erase]
+    have := h.perm.erase x
+    rw [hlive, List.erase_append_right _ hxnot] at this
+    simpa using this
+  · intro y j hly
+    show s.items.dropLast[j]? = some (some y)
+    have hyx : x ≠ y := by
+      intro e; subst e
+      rw [IMap.lookup_erase_self _ _ h.keys_nodup] at hly; cases hly
+    rw [IMap.lookup_erase_ne _ _ _ hyx] at hly
+    have hj := h.look y j hly
+    have hjl := getElem?_lt hj
+    have : j ≠ s.items.length - 1 := by
+      intro e; subst e; rw [hslot] at hj; simp at hj; exact hyx hj
+    rw [hget j (by omega)]; exact hj
+  · show Chain 0 s.dead s.items.dropLast.length
+    rw [List.length_dropLast]
+    apply chain_tighten_hi s.dead 0 _ _ h.chain (Nat.zero_le _)
+    intro p hp
+    have hcp := chain_mem s.dead 0 _ p h.chain hp
+    rcases Nat.lt_or_ge (s.items.length - 1) p.2 with hgt | hle
+    · exfalso
+      have := (h.tombs (s.items.length - 1) (Nat.zero_le _) (by omega)).2 ⟨p, hp, by omega, by omega⟩
+      rw [hslot] at this; simp at this
+    · exact hle
+  · intro j _ hj
+    show s.items.dropLast[j]? = some none ↔ DeadAt s.dead j
+    have hj : j < s.items.dropLast.length := hj
+    rw [List.length_dropLast] at hj
+    rw [hget j hj]; exact h.tombs j (Nat.zero_le _) (by omega)
+
+theorem popLast?_items (items : List (Option α)) (o : Option α) (hl : items.getLast? = some o) :
+    PyRt.popLast? (items.map ofItem) = .ok (ofItem o, (items.map ofItem).dropLast) := by
+  unfold PyRt.popLast?
+  rw [List.getLast?_map, hl]; rfl
+
+theorem del?_castIdx (m : IMap α) (x : α) (hn : (IMap.keys m).Nodup) (hx : (IMap.lookup m x).isSome) :
+    PyRt.Dict.del? (castIdx m) x = .ok (castIdx (IMap.erase m x)) := by
+  unfold PyRt.Dict.del?
+  rw [contains_castIdx, hx, erase_castIdx m x hn]; rfl
+
+theorem index?_items (items : List (Option α)) (r : Nat) (o : Option α) (h : items[r]? = some o) :
+    PyRt.index? (items.map ofItem) (r : Int) = .ok (ofItem o) := by
+  have hr := getElem?_lt h
+  unfold PyRt.index? PyRt.normIdx
+  have h0 : ¬ ((r : Int) < 0) := by omega
+  simp [h0, h]
+
+
 end RepSec
 
 end C11
